@@ -14,7 +14,7 @@
 #define OP_LO 0
 #endif
 #ifndef OP_HI
-#define OP_HI 18
+#define OP_HI 24
 #endif
 
 static void
@@ -77,7 +77,7 @@ main_c09(void)
     int ret = 0, op;
     tsk_id_t s0, s1, ids[2], map5[5], nm[5];
     tsk_size_t sz[2] = { 1, 1 }, n;
-    double d, w[3], out[8];
+    double d, w[3], out[40];
     char buf[16];
 
     build_base(&t);
@@ -351,6 +351,102 @@ main_c09(void)
             (void) tsk_node_table_equals(&t.nodes, &ts.tables->nodes, 0);
             tsk_edge_table_free(&big);
             ret = 0;
+            break;
+        }
+        case 19:
+            /* allele frequency spectrum: free sample-set members and windows */
+            w[0] = sym_f64_int("w0");
+            w[1] = sym_f64_int("w1");
+            w[2] = sym_f64_int("w2");
+            ret = tsk_treeseq_allele_frequency_spectrum(&ts, 2, sz, ids, 2, w,
+                (sym_choice("mode", 0, 1) ? TSK_STAT_BRANCH : TSK_STAT_SITE) | (sym_choice("pol", 0, 1) ? TSK_STAT_POLARISED : 0), out);
+            if (ret == 0) {
+                sym_assert(w[0] == 0 && w[0] < w[1] && w[1] < w[2] && w[2] == 2, "windows must cover [0,L] increasing");
+                sym_assert(s0 >= 0 && s0 < 3 && s1 >= 0 && s1 < 3, "sample sets must contain samples (the two sets may overlap)");
+            }
+            break;
+        case 20:
+            w[0] = sym_f64_int("w0");
+            w[1] = sym_f64_int("w1");
+            w[2] = sym_f64_int("w2");
+            ret = tsk_treeseq_divergence_matrix(&ts, 2, sz, ids, 2, w, sym_choice("mode", 0, 1) ? TSK_STAT_BRANCH : TSK_STAT_SITE, out);
+            if (ret == 0) {
+                sym_assert(0 <= w[0] && w[0] < w[1] && w[1] < w[2] && w[2] <= 2, "windows must be increasing inside [0,L]");
+                sym_assert(s0 >= 0 && s0 < 3 && s1 >= 0 && s1 < 3 && s0 != s1, "sample sets must contain distinct samples");
+            }
+            break;
+        case 21: {
+            tsk_id_t idx[2], bins[5];
+            int q;
+            idx[0] = sym_i32("i0");
+            idx[1] = sym_i32("i1");
+            for (q = 0; q < 5; q++) {
+                bins[q] = q == 3 ? sym_i32("bin3") : q;
+            }
+            /* the Python layer computes the node -> time-window map itself (np.digitize): null or a window index.
+             * (Through the C API alone a bin of INT32_MAX passes check_node_bin_map by signed overflow of
+             * max_index + 1 and is then used as an index: noted in DESIGN.md, outside this property.) */
+            sym_assume(bins[3] >= -1 && bins[3] < 5);
+            w[0] = 0;
+            w[1] = sym_f64_int("w1");
+            w[2] = 2;
+            ret = tsk_treeseq_pair_coalescence_counts(&ts, 2, sz, ids, 1, idx, 2, w, 5, bins, 0, out);
+            if (ret == 0) {
+                sym_assert(idx[0] >= 0 && idx[0] < 2 && idx[1] >= 0 && idx[1] < 2, "set indexes must name sample sets");
+                sym_assert(bins[3] >= -1 && bins[3] < 5, "node bins must be null or inside the output");
+                sym_assert(s0 >= 0 && s0 < 3 && s1 >= 0 && s1 < 3 && s0 != s1, "sample sets must contain distinct samples");
+            }
+            break;
+        }
+        case 22: {
+            const tsk_id_t *refs[2];
+            tsk_id_t focal[2], r0[1], r1[1];
+            tsk_size_t rs[2] = { 1, 1 };
+            focal[0] = s0;
+            focal[1] = 1;
+            r0[0] = s1;
+            r1[0] = sym_i32("r1");
+            refs[0] = r0;
+            refs[1] = r1;
+            ret = tsk_treeseq_genealogical_nearest_neighbours(&ts, focal, 2, refs, rs, 2, 0, out);
+            if (ret == 0) {
+                sym_assert(s0 >= 0 && s0 < 5 && s1 >= 0 && s1 < 5 && r1[0] >= 0 && r1[0] < 5, "focal and reference nodes must be nodes");
+            }
+            break;
+        }
+        case 23: {
+            const tsk_id_t *refs[2];
+            tsk_id_t r0[1], r1[1];
+            tsk_size_t rs[2] = { 1, 1 };
+            r0[0] = s0;
+            r1[0] = s1;
+            refs[0] = r0;
+            refs[1] = r1;
+            ret = tsk_treeseq_mean_descendants(&ts, refs, rs, 2, 0, out);
+            if (ret == 0) {
+                sym_assert(s0 >= 0 && s0 < 5 && s1 >= 0 && s1 < 5, "reference nodes must be nodes");
+            }
+            break;
+        }
+        case 24: {
+            /* parsimony with free genotype values */
+            int32_t g[3];
+            tsk_size_t nt;
+            tsk_state_transition_t *tr = NULL;
+            int32_t anc;
+            g[0] = s0;
+            g[1] = s1;
+            g[2] = 0;
+            ret = tsk_tree_init(&tree, &ts, 0);
+            sym_assume(ret == 0);
+            ret = tsk_tree_first(&tree);
+            sym_assume(ret == TSK_TREE_OK);
+            ret = tsk_tree_map_mutations(&tree, g, NULL, 0, &anc, &nt, &tr);
+            if (ret == 0) {
+                sym_assert(s0 >= -1 && s0 < 64 && s1 >= -1 && s1 < 64, "genotypes must be missing or below 64");
+                free(tr);
+            }
+            tsk_tree_free(&tree);
             break;
         }
     }
